@@ -319,7 +319,35 @@ def f47():
     return True if tuple(float(x) for x in res) == (0.5, 1.5) else res
 
 
-for name, fn in (("F36", f36), ("F37", f37), ("F38", f38), ("F39", f39), ("F40", f40), ("F41", f41), ("F42", f42), ("F43", f43), ("F44", f44), ("F45", f45), ("F46", f46), ("F47", f47)):
+def f48():
+    """C09: Derivate of a spline with a jump (interior knot of multiplicity degree + 1) raised ValueError before 3fee622"""
+    from compmec.nurbs.calculus import Derivate
+
+    c = Curve([F(k) for k in (0, 0, 0, 1, 1, 1, 2, 3, 3, 3)], [F(p) for p in (1, 3, 2, 5, -1, 4, 2)])
+    d = Derivate(c)
+    return True if (d(F(1, 3)), d(F(2, 3)), d(F(5, 2))) == (2, 0, 0.5) else d.ctrlpoints
+
+
+def f49():
+    """C08 (C09): A * B with vector-valued A, the sum of vector-valued rational curves and Derivate of the circle raised ValueError before d5d1313"""
+    from compmec.nurbs.calculus import Derivate
+
+    A = Curve([F(0), F(0), F(0), F(1, 2), F(1), F(1), F(1)], np.array([(F(1), F(2)), (F(3), F(1)), (F(0), F(5)), (F(2), F(2))], dtype=object))
+    B = Curve([F(0), F(0), F(1, 3), F(1), F(1)], [F(1), F(2), F(3)])
+    u = F(1, 24)
+    if tuple((A * B)(u)) != tuple(A(u) * B(u)) or tuple((A * A)(u)) != tuple(A(u) * A(u)):
+        return "wrong product"
+    Ar = Curve(A.knotvector, A.ctrlpoints, [F(1), F(2), F(3), F(1)])
+    if tuple((Ar + Ar)(u)) != tuple(2 * Ar(u)):
+        return "wrong sum"
+    s = np.sqrt(2) / 2
+    C = Curve([0, 0, 0, 0.25, 0.25, 0.5, 0.5, 0.75, 0.75, 1, 1, 1], np.array([(1, 0), (1, 1), (0, 1), (-1, 1), (-1, 0), (-1, -1), (0, -1), (1, -1), (1, 0)], dtype=float), [1, s, 1, s, 1, s, 1, s, 1])
+    D = Derivate(C)
+    num = (C(0.1 + 1e-6) - C(0.1 - 1e-6)) / 2e-6
+    return True if np.allclose(np.array(D(0.1), dtype=float), num, atol=1e-5) else D(0.1)
+
+
+for name, fn in (("F36", f36), ("F37", f37), ("F38", f38), ("F39", f39), ("F40", f40), ("F41", f41), ("F42", f42), ("F43", f43), ("F44", f44), ("F45", f45), ("F46", f46), ("F47", f47), ("F48", f48), ("F49", f49)):
     if len(sys.argv) > 1 and name not in sys.argv[1:]:
         continue
     t(name, fn)
